@@ -26,7 +26,7 @@ def run(ctx):
     r = ctx.rule('C10.R3', 'GUARD', 'a table size change is signalled first, paired with the resize, within the allowance')
     hpackrules.size_update_order(r, F)
     r = ctx.rule('C10.R6', 'TSTATE', 'pending size updates: after update_max_size the final signalled size is the requested one and the minimum is signalled first (all orderings)')
-    hpackrules.size_update_schedule(r, F)
+    hpackrules.size_update_schedule(r, F, nvals=6 if ctx.tier == 'thorough' else 4)  # 4 values realise every weak ordering of the 4 symbols; thorough adds slack
     r = ctx.rule('C10.R7', 'PAIR', 'decoder dynamic table follows RFC 7541 §4.4: accounting paired, store iff size+len <= max, evict while > max (= C11.R6)')
     hpackrules.table_accounting(r, F)
     r = ctx.rule('C10.R8', 'PAIR', 'encoder dynamic table: same eviction boundary and paired accounting as the decoder table')
